@@ -109,18 +109,30 @@ def dataKind {T C : Type} [DecidableEq T] (K : Kind T C) : Kind (DataDom T) (Sym
   tag := fun a b => if a.top || b.top then "topflag" else if a.rel.isEmpty && b.rel.isEmpty then "absolute" else "pointers"
   name := "data_" ++ K.name
 
+/-- a signed value: a JSON number, or (above 64 bits) a decimal string -/
+def bigInt (v : Json) : Except String Int :=
+  match v with
+  | .str s => match s.toInt? with
+    | some i => pure i
+    | none => throw s!"not an integer: {s}"
+  | _ => v.getInt?
+
 def optIntF (j : Json) (k : String) : Except String (Option Int) :=
   match optF j k with
   | some Json.null => pure none
-  | some v => do pure (some (← v.getInt?))
+  | some v => do pure (some (← bigInt v))
   | none => pure none
 
 def parseIv (j : Json) : Except String IntervalDomain := do
-  return { interval := { w := ← natF j "w", start := ← intF j "s", stop := ← intF j "e", stride := ← natF j "st" },
+  return { interval := { w := ← natF j "w", start := ← bigInt (← field j "s"), stop := ← bigInt (← field j "e"),
+                         stride := ← natF j "st" },
            upper := ← optIntF j "up", lower := ← optIntF j "lo", delay := ← natF j "d" }
 
+/-- well-formed values of at least one byte. Widths above 64 bits are outside the proved theorem
+(`ivDom_laws_partial`) but inside the property: the laws are still evaluated on the implementation
+outputs there (tag `iv-wide`), except the inclusion form of law 2 which needs an exhaustive universe. -/
 def ivWfB (a : IntervalDomain) : Bool :=
-  decide a.interval.WF && decide (1 < a.interval.w) && decide (a.interval.w ≤ 64) &&
+  decide a.interval.WF && decide (1 < a.interval.w) &&
   a.upper.all (fun u => decide (InRange a.interval.w u)) &&
   a.lower.all (fun l => decide (InRange a.interval.w l)) && decide (a.delay < 2 ^ 64)
 
@@ -146,6 +158,7 @@ def ivKind : Kind IntervalDomain Int where
   newTop := fun s => IntervalDomain.newTop (8 * s)
   exact := fun vs => vs.all (fun a => a.interval.w == 8)
   tag := fun a b =>
+    (if a.interval.w > 64 then "iv-wide " else "") ++
     let sm := signedMerge a b
     let m := signedMergeAndWiden a b
     if m == sm then (if sm.interval == a.interval || sm.interval == b.interval then "iv-absorbed" else
